@@ -191,4 +191,115 @@ def refutedRules : List Rule := [
   x123_int_bool_operand
 ]
 
+/-! ### Statement-level rules (function bodies in the block language of Model/PyVal.lean)
+
+`advice` is the exact message refurb gives for `old`: these messages are schematic, so `new` is the advice
+applied by hand; harness/props/c01_stmt.py checks on every run that refurb reports `advice` on the rendered
+`old` block, and that CPython runs the rendered `old` and `new` blocks as the model does. -/
+
+structure SRule where
+  code : Nat
+  label : String
+  vars : List (String × Option TypeName)
+  old : List Stmt
+  new : List Stmt
+  advice : String
+  /-- names whose final binding is NOT compared: a temporary / loop variable the rewrite removes -/
+  ignore : List String := []
+  /-- the rule's blocks are rendered inside this many enclosing `for _ in range(1):` blocks (FURB128 only sees
+      swaps below the top level of a function) -/
+  nest : Nat := 0
+
+def acc : PyExpr := .var "acc"
+def e_ : PyExpr := .var "e"
+def a_ : PyExpr := .var "a"
+def b_ : PyExpr := .var "b"
+def xs_ : PyExpr := .var "xs"
+
+def s113_two_appends : SRule :=
+  { code := 113, label := "two-appends", vars := [("acc", some .list), ("a", anyS), ("b", anyS)],
+    old := [.append "acc" a_, .append "acc" b_], new := [.extend2 "acc" a_ b_],
+    advice := "Replace `acc.append(...); acc.append(...)` with `acc.extend((..., ...))`" }
+
+def s125_trailing_return : SRule :=
+  { code := 125, label := "trailing-return", vars := [("acc", some .list), ("a", anyS)],
+    old := [.append "acc" a_, .ret none], new := [.append "acc" a_], advice := "Return is redundant here" }
+
+def s125_return_in_else : SRule :=
+  { code := 125, label := "return-in-else", vars := [("acc", some .list), ("a", anyS), ("b", anyS)],
+    old := [.ifElse a_ [.append "acc" a_] [.append "acc" b_, .ret none]], new := [.ifElse a_ [.append "acc" a_] [.append "acc" b_]],
+    advice := "Return is redundant here" }
+
+def s126_else_return : SRule :=
+  { code := 126, label := "else-return", vars := [("a", anyS), ("b", anyS)],
+    old := [.ifElse a_ [.ret (some a_)] [.ret (some b_)]], new := [.ifElse a_ [.ret (some a_)] [], .ret (some b_)],
+    advice := "Replace `else: return x` with `return x`" }
+
+def s128_swap : SRule :=
+  { code := 128, label := "swap", vars := [("a", anyS), ("b", anyS)],
+    old := [.assign "tmp" a_, .assign "a" b_, .assign "b" (.var "tmp")], new := [.assign2 "a" "b" b_ a_],
+    advice := "Use tuple unpacking instead of temporary variables to swap values", ignore := ["tmp"], nest := 1 }
+
+def s133_trailing_continue : SRule :=
+  { code := 133, label := "trailing-continue", vars := [("acc", some .list), ("xs", some .list)],
+    old := [.forIn "e" xs_ [.append "acc" e_, .cont]], new := [.forIn "e" xs_ [.append "acc" e_]],
+    advice := "Continue is redundant here" }
+
+def s138_loop_append : SRule :=
+  { code := 138, label := "loop-append", vars := [("xs", some .list)],
+    old := [.assign "acc" lListEmpty, .forIn "e" xs_ [.append "acc" e_]], new := [.listComp "acc" e_ "e" xs_ none],
+    advice := "Consider using list comprehension", ignore := ["e"] }
+
+def s138_loop_append_if : SRule :=
+  { code := 138, label := "loop-append-if", vars := [("xs", some .tuple)],
+    old := [.assign "acc" lListEmpty, .forIn "e" xs_ [.ifElse e_ [.append "acc" e_] []]], new := [.listComp "acc" e_ "e" xs_ (some e_)],
+    advice := "Consider using list comprehension", ignore := ["e"] }
+
+def s148_index_unused : SRule :=
+  { code := 148, label := "index-unused", vars := [("acc", some .list), ("xs", some .list)],
+    old := [.forEnum "i" "e" xs_ [.append "acc" e_]], new := [.forIn "e" xs_ [.append "acc" e_]],
+    advice := "Index is unused, use `for e in xs` instead", ignore := ["i"] }
+
+def srules : List SRule := [
+  s113_two_appends,
+  s125_trailing_return,
+  s125_return_in_else,
+  s126_else_return,
+  s128_swap,
+  s133_trailing_continue,
+  s138_loop_append,
+  s138_loop_append_if,
+  s148_index_unused
+]
+
+/- the same advice where refurb gives it although the rewrite is not behaviour-preserving: the refuting variants -/
+
+/-- FURB113 when the second appended value reads the list -/
+def sx113_reads_list : SRule :=
+  { code := 113, label := "two-appends:second-reads-list", vars := [("acc", some .list), ("a", anyS)],
+    old := [.append "acc" a_, .append "acc" (.len acc)], new := [.extend2 "acc" a_ (.len acc)],
+    advice := "Replace `acc.append(...); acc.append(...)` with `acc.extend((..., ...))`" }
+
+/-- FURB128 when the temporary's binding is observed afterwards -/
+def sx128_swap_tmp_observed : SRule := { s128_swap with label := "swap:temporary-observed", ignore := [] }
+
+/-- FURB138 when the filter reads the list being built (the de-duplication loop) -/
+def sx138_condition_reads_list : SRule :=
+  { code := 138, label := "loop-append-if:condition-reads-list", vars := [("xs", some .list)],
+    old := [.assign "acc" lListEmpty, .forIn "e" xs_ [.ifElse (.notIn e_ acc) [.append "acc" e_] []]],
+    new := [.listComp "acc" e_ "e" xs_ (some (.notIn e_ acc))],
+    advice := "Consider using list comprehension", ignore := ["e"] }
+
+/-- FURB138 / FURB148 when the loop variable (the dropped index) is read after the loop -/
+def sx138_loop_var_observed : SRule := { s138_loop_append with label := "loop-append:loop-variable-observed", ignore := [] }
+def sx148_index_observed : SRule := { s148_index_unused with label := "index-unused:index-observed", ignore := [] }
+
+def refutedSRules : List SRule := [
+  sx113_reads_list,
+  sx128_swap_tmp_observed,
+  sx138_condition_reads_list,
+  sx138_loop_var_observed,
+  sx148_index_observed
+]
+
 end RefurbVerif.Py
